@@ -6,8 +6,8 @@ ID = 'C03'
 HARNESSES = ['h_c01.cpp', 'h_load.cpp']
 LEVEL = 'model_checking'
 BUDGET = {'quick': 280, 'thorough': 3000}
-BOUNDS = {'quick': 'objects built through the API (C01 quick shapes/orders/extra parameters) and loaded-then-edited objects; parameter-section length steered through residues {0,1,2,3,255,256,509,510,511} around the 512-byte block boundary; payload symbolic',
-          'thorough': 'all 512 residues of the parameter-section length; C01 thorough shapes'}
+BOUNDS = {'quick': 'objects built through the API (C01 quick shapes/orders/extra parameters) and loaded-then-edited objects; parameter-section length steered through ALL 512 residues modulo the block size (520 consecutive lengths); payload symbolic (data floats free, so the byte following the parameter section is any value)',
+          'thorough': 'two full sweeps of the residues (1040 lengths, sections of 2-4 blocks); C01 thorough shapes'}
 OUTSIDE = 'histories deeper than load + 2 edits; parameter sections longer than 3 blocks'
 ASSUMPTIONS = ['the reference decoder oracle/c3dref.py follows only the file\'s own pointers (header byte 1, POINT:DATA_START, next-offsets)']
 
@@ -15,13 +15,13 @@ def jobs(tier, seed):
     out = []
     for j in c01.jobs(tier, seed):
         if j['cfg']['symnames']: continue
-        cfg = dict(j['cfg']); cfg['pad'] = -1
+        cfg = dict(j['cfg'])
+        if cfg['pad'] >= 0: continue
         out.append({'entry': 'h_save', 'harness': 'h_c01.cpp', 'cfg': cfg, 'name': 'api'})
     # alignment residues: find the pad values that hit each residue of the parameter-section end modulo 512.
     # the section length for pad = L grows by exactly 1 per unit, so consecutive L cover consecutive residues.
-    Ls = range(0, 520) if tier == 'thorough' else range(0, 520, 1)
-    for L in Ls:
-        if tier == 'quick' and not (L % 37 == 0 or L in (254, 255, 256, 257, 510, 511)): continue
+    # one save costs 0.2 s, so every residue is affordable on every change (520 consecutive lengths cover all 512 residues)
+    for L in range(0, 520 if tier == 'quick' else 1040):
         out.append({'entry': 'h_save', 'harness': 'h_c01.cpp', 'cfg': c01.base(P=1, C=1, S=1, F=1, order=L % 3, pad=L), 'name': 'align', 'want_residue': True})
     return out
 
